@@ -111,7 +111,7 @@ func genC14(t *rapid.T) C14Case {
 	c := C14Case{Rows: rapid.SampledFrom([]int{0, 0, 3, 5, 6, 8, 63, 63}).Draw(t, "rows")}
 	g := newWgen(true)
 	n := rapid.IntRange(1, lim.maxBlocks).Draw(t, "nsteps")
-	ops := []string{"block", "block", "block", "block", "verify", "vpp", "prune", "undo"}
+	ops := []string{"block", "block", "block", "block", "verify", "vpp", "prune", "undo", "restart"}
 	for i := 0; i < n; i++ {
 		c.Steps = append(c.Steps, g.next(t, lim, ops))
 	}
